@@ -283,6 +283,57 @@ def handle (j : Json) : Except String Json := do
   | "strct" =>
     let s ← getStr j "s"
     pure (match strContentType SniffCfg.live s with | some c => jStr c | none => Json.null)
+  | "reload" =>
+    -- a history of file operations on one auto-reloading (or not) file template
+    let auto ← getBool j "auto"
+    let vers ← match j.getObjVal? "versions" with
+      | .ok (.arr a) => a.toList.mapM (fun v => match v with
+          | .arr #[.arr ms, .bool x] => do
+            let names ← ms.toList.mapM (fun m => m.getStr?)
+            pure ({ macros := names, xml := x } : Sys.VersionInfo)
+          | _ => throw "version")
+      | _ => throw "versions"
+    let info : Nat → Sys.VersionInfo := fun v => vers.getD v default
+    let v0 ← getNat j "version"
+    let t0 ← getNat j "mtime"
+    let ops ← match j.getObjVal? "ops" with
+      | .ok (.arr a) => a.toList.mapM (fun o => match o with
+          | .arr #[.str "write", v] => do pure (Sys.Op.write (← v.getNat?))
+          | .arr #[.str "utime", t] => do pure (Sys.Op.utime (← t.getNat?))
+          | .arr #[.str "modify", v, t] => do pure (Sys.Op.modify (← v.getNat?) (← t.getNat?))
+          | .arr #[.str "render"] => pure Sys.Op.render
+          | .arr #[.str "names"] => pure Sys.Op.names
+          | .arr #[.str "use", .str m] => pure (Sys.Op.use m)
+          | _ => throw "reload op")
+      | _ => throw "ops"
+    let q : Sys.RQuirks := { staleMacros := match j.getObjVal? "stale" with | .ok (.bool b) => b | _ => false }
+    let w0 : Sys.World := { file := ⟨v0, t0⟩, tpl := { autoReload := auto } }
+    let (w, obs) := Sys.run q info w0 ops
+    let jo : Sys.Obs → Json
+      | .none => Json.null
+      | .rendered v x => Json.mkObj [("rendered", jNat v), ("xml", match x with | some b => Json.bool b | none => Json.null)]
+      | .names ns => Json.mkObj [("names", jArr (ns.map Json.str))]
+      | .macro v => Json.mkObj [("macro", match v with | some n => jNat n | none => Json.null)]
+    pure (Json.mkObj [("obs", jArr (obs.map jo)), ("cooks", jNat w.tpl.cooks)])
+  | "loader" =>
+    let sp ← match j.getObjVal? "search_path" with
+      | .ok (.arr a) => a.toList.mapM (fun x => x.getStr?)
+      | _ => throw "search_path"
+    let ext : Option String := match j.getObjVal? "default_extension" with | .ok (.str e) => some e | _ => none
+    let files ← match j.getObjVal? "files" with
+      | .ok (.arr a) => a.toList.mapM (fun x => x.getStr?)
+      | _ => throw "files"
+    let loads ← match j.getObjVal? "loads" with
+      | .ok (.arr a) => a.toList.mapM (fun x => x.getStr?)
+      | _ => throw "loads"
+    let ex : String → Bool := fun p => files.contains p
+    let l0 : Sys.Loader := { searchPath := sp, defaultExtension := ext }
+    let (_, outs) := loads.foldl (fun (acc : Sys.Loader × List Json) spec =>
+      let (l', r) := Sys.load acc.1 ex spec
+      (l', acc.2 ++ [match r with
+        | .instance_ id fn => Json.mkObj [("id", jNat id), ("filename", Json.str fn)]
+        | .notFound s => Json.mkObj [("not_found", Json.str s)]])) (l0, [])
+    pure (jArr outs)
   | "static" =>
     let s ← getStr j "s"
     pure (jSRes (staticRenderWith (getRx j) (getQuirks j) true s))
